@@ -272,7 +272,7 @@ func verifK11Page(clk *verifK11Clock, n, w int, tw time.Time, wk *openfgav1.Tupl
 // verifK11PrevChangelog optionally leaves the ChangelogCacheEntry of an earlier invalidation run in the cache:
 // it saw a change at tp and was stored (now) with the query TTL. tp precedes the write (checked later).
 func verifK11PrevChangelog(clk *verifK11Clock, cache *verifK11Cache, store string, qttl time.Duration) (bool, time.Time) {
-	if !vt.ForkBool("previous-changelog-entry") {
+	if vt.ParamInt("prevcl", 1) == 0 || !vt.ForkBool("previous-changelog-entry") {
 		return false, time.Time{}
 	}
 	now := clk.step("gap-prev", 0)
